@@ -328,7 +328,7 @@ def run(tier, seed):
     # the [[]] root explores the whole tree; replace it by a root-only run
     blocks = [b for b in blocks if not (b[0] == "threads" and b[3] == [[]])]
     total, capped = run_blocks(worker, blocks, seed=seed)
-    rep.add_violations(total.violations)
+    rep.add_violations(total.violations, total.hist_sig)
     rep.harness_errors = total.stats.get("harness_errors", 0)
     rep.notes.extend(total.notes)
     orders = {k[len("distinct_orders_"):-4]: v for k, v in total.stats.items()
